@@ -33,6 +33,9 @@ type Fault struct {
 	N     int    `json:"n,omitempty"`
 	Index int    `json:"index,omitempty"`
 	Msg   string `json:"msg,omitempty"` // error text (hostile strings for the envelope check)
+	// Call > 0: only the Call-th invocation of (node, field) within the request fails (the same
+	// field of the same object reached twice: through a repeated response key, a shared node).
+	Call int `json:"call,omitempty"`
 }
 
 func faultKey(node int, field string) string { return strconv.Itoa(node) + "/" + field }
@@ -55,6 +58,10 @@ func PathString(p []interface{}) string {
 
 // Expect is what the reference executor predicts.
 type Expect struct {
+	// Nulled lists path prefixes ("a.b.") beneath a position that an earlier selection of the
+	// response key filled and a later, failing selection of the same key turned into null: failures
+	// that happened inside the discarded value may or may not be listed.
+	Nulled   []string
 	Rejected bool // no operation could be chosen: nothing executes
 	Data     interface{}
 	Errors   []ExpErr
@@ -123,6 +130,9 @@ type Exec struct {
 	Echo bool
 	// Compute, when set, gives the value of computed (method backed) fields from the arguments.
 	Compute func(n *Node, fd *Field, args map[string]interface{}) (Val, bool)
+	// ComputeFault, when set, says how a computed field fails for these arguments: "" (it does
+	// not), "err" (no value and an error) or "valerr" (a value together with an error).
+	ComputeFault func(n *Node, fd *Field, args map[string]interface{}) string
 
 	vars    map[string]Val
 	faults  map[string]Fault
@@ -293,7 +303,7 @@ func (x *Exec) selSet(n *Node, sels []*Sel, out map[string]interface{}, path []i
 			if len(s.Args) > 0 {
 				x.out.T.ArgsSeen++
 			}
-			if f, bad := x.faults[faultKey(n.ID, s.Name)]; bad && f.Kind != "nth" {
+			if f, bad := x.faults[faultKey(n.ID, s.Name)]; bad && f.Kind != "nth" && (f.Call == 0 || f.Call == x.out.Calls[faultKey(n.ID, s.Name)]) {
 				cnt := 1
 				if f.Kind == "group" {
 					cnt = f.N
@@ -301,13 +311,24 @@ func (x *Exec) selSet(n *Node, sels []*Sel, out map[string]interface{}, path []i
 				for i := 0; i < cnt; i++ {
 					x.out.Errors = append(x.out.Errors, ExpErr{Path: p, Kind: f.Kind, Sel: s.ID})
 				}
-				x.merge(out, key, nil)
+				x.merge(out, key, nil, p)
 				continue
 			}
 			v := n.F[s.Name]
 			if x.Compute != nil {
 				if cv, ok := x.Compute(n, fd, x.ExpectedArgs(fd, s)); ok {
 					v = cv
+				}
+			}
+			if x.ComputeFault != nil {
+				switch x.ComputeFault(n, fd, x.ExpectedArgs(fd, s)) {
+				case "err":
+					x.out.Errors = append(x.out.Errors, ExpErr{Path: p, Kind: "err", Sel: s.ID})
+					x.merge(out, key, nil, p)
+					continue
+				case "valerr":
+					// the value is kept next to the error (pinned by the repository's own tests)
+					x.out.Errors = append(x.out.Errors, ExpErr{Path: p, Kind: "valerr", Sel: s.ID})
 				}
 			}
 			if x.Echo && len(fd.Args) > 0 && v.K == "string" && fd.Type.BaseName() == "String" && fd.Type.List == nil {
@@ -318,28 +339,49 @@ func (x *Exec) selSet(n *Node, sels []*Sel, out map[string]interface{}, path []i
 				nth = &f
 			}
 			val := x.complete(v, fd.Type, s, p, depth, nth)
-			x.merge(out, key, val)
+			x.merge(out, key, val, p)
 		}
 	}
 }
 
-func (x *Exec) merge(out map[string]interface{}, key string, val interface{}) {
+// dropBelow forgets the leaf bookkeeping beneath a position that a later, failing selection of
+// the same response key has turned into null.
+func (x *Exec) dropBelow(p []interface{}) {
+	pre := PathString(p) + "."
+	x.out.Nulled = append(x.out.Nulled, pre)
+	for k := range x.out.Borderline {
+		if strings.HasPrefix(k, pre) {
+			delete(x.out.Borderline, k)
+			delete(x.out.BorderPath, k)
+			delete(x.out.BorderN, k)
+		}
+	}
+	for k := range x.out.BadEnum {
+		if strings.HasPrefix(k, pre) {
+			delete(x.out.BadEnum, k)
+		}
+	}
+}
+
+func (x *Exec) merge(out map[string]interface{}, key string, val interface{}, p []interface{}) {
 	old, has := out[key]
 	if !has {
 		out[key] = val
 		return
 	}
 	x.out.T.Merged++
-	out[key] = deepMerge(old, val)
+	out[key] = x.deepMerge(old, val, p)
 }
 
-func deepMerge(a, b interface{}) interface{} {
+// deepMerge merges the result of a later selection of a response key into the earlier one;
+// a later null (a failed or null valued selection) replaces what was there.
+func (x *Exec) deepMerge(a, b interface{}, p []interface{}) interface{} {
 	switch ta := a.(type) {
 	case map[string]interface{}:
 		if tb, ok := b.(map[string]interface{}); ok {
 			for k, v := range tb {
 				if ov, has := ta[k]; has {
-					ta[k] = deepMerge(ov, v)
+					ta[k] = x.deepMerge(ov, v, append(append([]interface{}{}, p...), k))
 				} else {
 					ta[k] = v
 				}
@@ -349,10 +391,13 @@ func deepMerge(a, b interface{}) interface{} {
 	case []interface{}:
 		if tb, ok := b.([]interface{}); ok && len(ta) == len(tb) {
 			for i := range ta {
-				ta[i] = deepMerge(ta[i], tb[i])
+				ta[i] = x.deepMerge(ta[i], tb[i], append(append([]interface{}{}, p...), i))
 			}
 			return ta
 		}
+	}
+	if a != nil && b == nil {
+		x.dropBelow(p)
 	}
 	return b
 }
